@@ -144,10 +144,12 @@ def run(ctx):
                 "iff some record spans ≥ 2 input packets or TLS and QUIC are both present.")
     ctx.assumptions = ["microsecond timestamps: input timestamps are integer µs; the output is read back as integer µs"]
     import session_corr
-    ctx.prove(["TLX.Props.C07", "TLX.Props.C05", "TLX.Props.C07Session"])
-    ctx.require_theorems(THEOREMS + session_corr.THEOREMS_C07)
+    ctx.prove(["TLX.Props.C07", "TLX.Props.C05", "TLX.Props.C07Session", "TLX.Props.C02Out"])
+    ctx.require_theorems(THEOREMS + session_corr.THEOREMS_C07 + ["TLX.Props.C02Out." + t for t in ("out_key_from_frames", "out_key_occurs", "build_groups")])
     import c06_model
     c06_model.run_model(ctx)          # ties TLX.TcpOut (the model the theorems are about) to the real OutputBuilder
+    import q1_udpout
+    q1_udpout.correspond(ctx)         # ties TLX.Quic.UdpOut to the real QUICOutputbuilder
     session_corr.correspond(ctx)      # ties TLX.Session to the real Session
     explore(ctx)
     return ctx.finish(search=lambda c: explore(c, scale=2))
